@@ -214,7 +214,7 @@ func VH06a_sub() {
 		check(rs, lab)
 	}
 	verif.Reach("done")
-	sock.Close()
+	vp.CloseCensus(sock, "C10/pubsub/after-history")
 }
 
 var pubs = []string{"pub", "xpub"}
@@ -280,7 +280,7 @@ func VH06b_pub() {
 		}
 		verif.Assert(len(p.Sent) <= N, lab+"/duplicate-delivery")
 	}
-	sock.Close()
+	vp.CloseCensus(sock, "C10/pubsub/after-history")
 }
 
 // sameIdx: identity of the byte terms (distinguishes equal-valued distinct publications only by position; kept permissive)
@@ -359,7 +359,7 @@ func VH06c_unsub_qlen() {
 	verif.Quiesce()
 	verif.Assert(!g.Done(), lab+"/more-messages-queued-than-READQ-LEN")
 	verif.Reach("qlen-kept")
-	sock.Close()
+	vp.CloseCensus(sock, "C10/pubsub/after-history")
 }
 
 // VH06e_burst: a SUB socket or context subscribed to "a" and "b", with 0..1
@@ -499,7 +499,7 @@ func VH06e_burst() {
 	verif.Quiesce()
 	verif.Assert(!x.g.Done(), lab+"/invented-or-duplicated-message")
 	verif.Reach("burst-epilogue")
-	sock.Close()
+	vp.CloseCensus(sock, "C10/pubsub/after-history")
 }
 
 // VH06f_many_subscriptions: a SUB socket or context holds N (5) subscriptions
@@ -574,7 +574,7 @@ func VH06f_many_subscriptions() {
 	verif.Quiesce()
 	verif.Assert(!g.Done(), lab+"/publication-delivered-without-any-subscription")
 	verif.Reach("many-subscriptions-checked")
-	sock.Close()
+	vp.CloseCensus(sock, "C10/pubsub/after-history")
 }
 
 // VH06g_many_contexts: M (5) contexts of one SUB socket, context i subscribed
@@ -650,5 +650,5 @@ func VH06g_many_contexts() {
 		verif.Assert(!g.Done(), lab+"/context-got-a-publication-it-did-not-subscribe-to")
 	}
 	verif.Reach("many-contexts-delivered")
-	sock.Close()
+	vp.CloseCensus(sock, "C10/pubsub/after-history")
 }
